@@ -53,7 +53,8 @@ NOT_PROVED = (
     'That IPPE (SVD homography), the mirror-solution cluster vote (accept_radius 0.8, OUTLIER_DETECTION_ERROR 0.5), '
     'quaternion averaging by eigen-decomposition and <= 100 evaluations of scipy least_squares reach the truth within '
     '1 mm / 1 mrad for every room of the envelope: validated by sampling only, and the sampling REFUTES it for about '
-    '1.5 % of rooms (known findings F09b/F09c/F09d: the mirror vote lumps mirror solutions with the true ones). '
+    '1.5 % of random rooms and ~50 % of axis-aligned symmetric rooms with level poses (known findings F09b/F09c/F09d/F09e: '
+    'the mirror vote lumps mirror candidates with the true ones, or a bucket of mirror candidates outvotes the true one). '
     'Floating-point rounding, _angles_to_poses\' numeric success test and the solver are outside every theorem.')
 EXPLANATION = 'partial: list/graph logic proved, numeric convergence sampled (with known counter-examples)'
 
@@ -523,7 +524,7 @@ def tie(ctx):
 # ---------------------------------------------------------------------------------------------- oracle
 
 KNOWN_RATE_CLASSES = ('mirror_vote_wrong_initial_bs_pose', 'mirror_choice_wrong_initial_cf_pose',
-                      'error_free_sample_discarded')
+                      'error_free_sample_discarded', 'mirror_bucket_outvotes_true_bucket')
 
 
 def _rooms():
@@ -532,16 +533,16 @@ def _rooms():
 
 
 def _eval_room(args):
-    case, exact = args
+    case, exact, jitter = args
     R = _rooms()
-    res = R.run_pipeline(case, exact=exact)
+    res = R.run_pipeline(case, exact=exact, jitter=jitter)
     j = R.judge(case, res)
     return j
 
 
-def _run_rooms(cases, exact, procs=8):
+def _run_rooms(cases, exact, procs=8, jitter=0.0):
     """Evaluate rooms (in worker processes when possible); returns list of judge() results."""
-    args = [(c, exact) for c in cases]
+    args = [(c, exact, jitter) for c in cases]
     if len(args) >= 8:
         try:
             import multiprocessing as mp
@@ -553,16 +554,92 @@ def _run_rooms(cases, exact, procs=8):
     return [_eval_room(a) for a in args]
 
 
-def _room_failure(case, j, kind):
-    return {'class': j[0], 'case': {'kind': kind, 'room': case}, 'expected': j[1], 'observed': j[2], 'detail': j[3]}
+def _room_failure(case, j, kind, jitter=0.0):
+    c = {'kind': kind, 'room': case}
+    if jitter:
+        c['jitter'] = jitter
+    return {'class': j[0], 'case': c, 'expected': j[1], 'observed': j[2], 'detail': j[3]}
+
+
+# ---- _avarage_poses is pure: averaging k >= 2 nearly equal poses must return a pose near each of them
+AVG_ANGLES = [0.0, 1.5707963267948966, 3.141592653589793, 3.141592653589793, 3.141592653589793, 2.0943951023931953]
+AVG_EPS = [0.0, 1e-9, -1e-9, 1e-7, -1e-6, 1e-5, -1e-4, 1e-3]
+AVG_AXES = [[1, 0, 0], [0, 1, 0], [0, 0, 1], [1, 1, 0], [1, 0, 1], [0, 1, 1], [1, 1, 1], [1, -1, 0], [-1, 2, 3]]
+
+
+def _average_cases(ctx, n_random):
+    cases = []
+    k = 0
+    for ax in AVG_AXES:
+        for ang in (3.141592653589793, 1.5707963267948966, 0.0):
+            for eps in (AVG_EPS if ang > 3 else AVG_EPS[:2]):
+                for noise in (1e-6, 1e-9):
+                    k += 1
+                    cases.append({'axis': ax, 'angle': ang + eps, 'noise': noise, 'k': 2 + k % 4, 'flip': k % 3 == 0,
+                                  't': [0.5 * (k % 5) - 1.0, 2.0, 1.5], 'seed': k})
+    for _ in range(n_random):
+        ax = [ctx.rng.uniform(-1, 1) for _ in range(3)]
+        cases.append({'axis': ax, 'angle': ctx.rng.choice(AVG_ANGLES) + ctx.rng.choice(AVG_EPS),
+                      'noise': ctx.rng.choice([0.0, 1e-9, 1e-7, 1e-6, 1e-5]), 'k': ctx.rng.randint(2, 8),
+                      'flip': ctx.rng.random() < 0.4, 't': [ctx.rng.uniform(-4, 4) for _ in range(3)],
+                      'seed': ctx.rng.randrange(1 << 30)})
+    return cases
+
+
+def _check_average(case):
+    import random
+    import warnings
+    import numpy as np
+    from scipy.spatial.transform import Rotation
+    from cflib.localization.lighthouse_initial_estimator import LighthouseInitialEstimator as E
+    from cflib.localization.lighthouse_types import Pose
+
+    class FlippedQuat(Pose):       # the same rotation, reported with the other quaternion sign (q and -q are one rotation)
+        @property
+        def rot_quat(self):
+            return -Pose.rot_quat.fget(self)
+    rj = random.Random(case['seed'])
+    ax = np.array(case['axis'], dtype=float)
+    ax /= np.linalg.norm(ax)
+    base = Rotation.from_rotvec(ax * case['angle'])
+    poses = []
+    for i in range(case['k']):
+        d = Rotation.from_rotvec([rj.uniform(-1, 1) * case['noise'] for _ in range(3)])
+        t = np.array(case['t']) + np.array([rj.uniform(-1, 1) * case['noise'] for _ in range(3)])
+        cls = FlippedQuat if (case['flip'] and i % 2 == 1) else Pose
+        poses.append(cls((d * base).as_matrix(), t))
+    tol = 1e-6 + 4 * case['noise']
+    R = _rooms()
+    with warnings.catch_warnings():
+        warnings.simplefilter('ignore')
+        try:
+            avg = E._avarage_poses(poses)
+            errs = [R.pose_error(p, avg) for p in poses]
+        except Exception as e:  # noqa
+            return {'class': 'average_of_nearly_equal_poses_raises', 'case': {'kind': 'average', **case},
+                    'expected': 'a pose within %.1e m / rad of each input' % tol,
+                    'observed': '%s: %s' % (type(e).__name__, str(e)[:120]), 'detail': ''}
+    worst = [max(e[0] for e in errs), max(e[1] for e in errs)]
+    if not (worst[0] <= tol and worst[1] <= tol):
+        return {'class': 'average_of_nearly_equal_poses_wrong', 'case': {'kind': 'average', **case},
+                'expected': 'a pose within %.1e m / rad of each of the %d inputs' % (tol, case['k']),
+                'observed': {'max_pos_err_m': worst[0], 'max_rot_err_rad': worst[1],
+                             'input_rot_vecs': [[float(v) for v in p.rot_vec] for p in poses][:4],
+                             'average_rot_vec': [float(v) for v in avg.rot_vec]},
+                'detail': '_avarage_poses of %d poses that agree to %.0e (rotation by %.9g rad about %s%s)' % (
+                    case['k'], case['noise'], case['angle'], case['axis'],
+                    ', every second one with the opposite quaternion sign' if case['flip'] else '')}
+    return None
 
 
 def _check_case(case, ctx=None):
     """Property text on one stored/generated case.  Returns a failure dict or None."""
     kind = case.get('kind')
     if kind in ('room', 'room_exact'):
-        j = _eval_room((case['room'], kind == 'room_exact'))
-        return _room_failure(case['room'], j, kind) if j else None
+        j = _eval_room((case['room'], kind == 'room_exact', case.get('jitter', 0.0)))
+        return _room_failure(case['room'], j, kind, case.get('jitter', 0.0)) if j else None
+    if kind == 'average':
+        return _check_average(case)
     if kind == 'matcher':
         got, want = _impl_match(case), _spec_match(case)
         if got != want:
@@ -685,6 +762,31 @@ def oracle(ctx, deep=False):
         f = _check_case({'kind': 'estimate_ids', 'ss': [s for s in c['ss'] if s]})
         if f and not any(x['class'] == f['class'] for x in failures):
             failures.append(f)
+    # ---- _avarage_poses directly (pure): nearly equal poses, orientations at / near half turns, q vs -q
+    acases = _average_cases(ctx, ctx.scale(300, 5000))
+    for c in acases:
+        n += 1
+        f = _check_average(c)
+        if f and not any(x['class'] == f['class'] for x in failures):
+            failures.append(f)
+    # ---- structured (axis-aligned, symmetric, half-turn seams) rooms, IPPE replaced by the exact pose + 1e-7 scatter
+    n_sx = ctx.scale(40, 600) * (3 if deep else 1)
+    sxcases = [R.gen_structured_room(ctx.rng) for _ in range(n_sx)]
+    for case, j in zip(sxcases, _run_rooms(sxcases, True, jitter=1e-7)):
+        n += 1
+        if j and not any(x['class'] == j[0] for x in failures):
+            failures.append(_room_failure(case, j, 'room_exact', 1e-7))
+    # ---- structured rooms through the unpatched pipeline (not counted in the rate guard: the symmetric rooms hit the
+    #      known mirror-vote findings F09d/F09e in about half of the cases)
+    n_su = ctx.scale(6, 60) * (3 if deep else 1)
+    sucases = [R.gen_structured_room(ctx.rng) for _ in range(n_su)]
+    su_known = 0
+    for case, j in zip(sucases, _run_rooms(sucases, False)):
+        n += 1
+        if j:
+            su_known += j[0] in KNOWN_RATE_CLASSES
+            if not any(x['class'] == j[0] for x in failures):
+                failures.append(_room_failure(case, j, 'room'))
     # ---- rooms with IPPE replaced by the exact pose: everything after IPPE must be right, without exception
     n_exact = ctx.scale(120, 1500) * (3 if deep else 1)
     ecases = [R.gen_room(ctx.rng) for _ in range(n_exact)]
@@ -714,11 +816,13 @@ def oracle(ctx, deep=False):
     samples.append({'room': {'stations': sorted(int(b) for b in cases[0]['bs']), 'poses': len(cases[0]['cf']),
                              'mode': cases[0]['mode'], 'vis': cases[0]['vis'][:3]}})
     return {'evaluations': n, 'failures': failures,
-            'distinct_nontrivial': len(cases) + len(ecases),
+            'distinct_nontrivial': len(cases) + len(ecases) + len(sxcases) + len(sucases),
             'rule': 'rooms: every generated room counts (2..6 stations, 3..40 poses, distinct random geometry)',
             'samples': samples,
             'distribution': {'rooms': n_rooms, 'rooms_exact_ippe': n_exact, 'modes': modes,
-                             'known_class_failures': n_known}}
+                             'known_class_failures': n_known, 'structured_rooms_exact_ippe': n_sx,
+                             'structured_rooms': n_su, 'structured_known_class_failures': su_known,
+                             'average_cases': len(acases)}}
 
 
 def replay(payload, ctx):
